@@ -290,3 +290,69 @@ Proof.
       subst rest. symmetry. eapply (window_nonce_ledger _ _ P pre Hn bs []); auto. intros b' [].
     + exfalso. apply Ez. reflexivity.
 Qed.
+
+(** * all histories *)
+Definition op_wf (x : op) : Prop :=
+  match x with
+  | OSubmit t _ _ => tx_wf t       (* Nonce is a uint32, GasPrice a uint64 *)
+  | OCommit b => Forall tx_wf b
+  | _ => True
+  end.
+Definition hist_wf (h : list op) : Prop := Forall op_wf h.
+
+Lemma hist_ok h : hist_wf h -> Forall (op_ok (hist_txs h)) h.
+Proof.
+  intro H. apply Forall_forall. intros x Hx.
+  pose proof (proj1 (Forall_forall _ _) H x Hx) as Hw.
+  destruct x; simpl in *; auto. split; auto.
+  unfold hist_txs. apply in_flat_map. exists (OSubmit t vh vn). simpl; auto.
+Qed.
+
+Theorem proposal_all_histories o maxBlocks maxtx h :
+  oracle_ok o -> hist_wf h -> collision_free (hist_txs h) ->
+  let w := run o (world_init maxBlocks maxtx) h in
+  N.of_nat (length (w_chain w)) < U32 ->
+  let out := pr_txs (propose o w) in
+  NoDup (map tx_hash out) /\
+  (forall t, In t out -> ~ In (tx_hash t) (all_hashes (w_chain w))) /\
+  (forall P, consec (w_nonce w P) (map tx_nonce (filter (is_of P) out))).
+Proof.
+  intros Hor Hwf Hcf w Hb. apply (propose_props o (hist_txs h)); auto.
+  apply winv_run; auto; [apply winv_init|apply hist_ok; auto].
+Qed.
+
+(** the canonical oracle (payer order, stable descending-price insertion sort) is an ordering *)
+Lemma ins_price_perm e l : Permutation (e :: l) (ins_price e l).
+Proof.
+  induction l as [|x r IH]; simpl; auto.
+  destruct (_ <? _); auto. eapply perm_trans; [apply perm_swap|]. apply perm_skip. exact IH.
+Qed.
+
+Lemma sort_price_perm l : Permutation l (sort_price l).
+Proof.
+  induction l as [|x r IH]; simpl; auto.
+  eapply perm_trans; [apply perm_skip; exact IH|apply ins_price_perm].
+Qed.
+
+Lemma canonical_oracle_ok : oracle_ok canonical_oracle.
+Proof. split; intro l; simpl; [apply Permutation_refl|apply sort_price_perm]. Qed.
+
+(** decidable collision-freedom, for concrete histories *)
+Definition cf_b (S : list tx) : bool :=
+  forallb (fun a => forallb (fun b => negb (tx_hash a =? tx_hash b) || tx_eqb a b) S) S.
+
+Lemma tx_eqb_eq a b : tx_eqb a b = true -> a = b.
+Proof.
+  destruct a, b. unfold tx_eqb. simpl. intro H.
+  repeat (apply andb_prop in H; destruct H as [H ?]).
+  apply N.eqb_eq in H. apply eqb_prop in H3. apply N.eqb_eq in H2. apply N.eqb_eq in H1. apply N.eqb_eq in H0.
+  subst. reflexivity.
+Qed.
+
+Lemma cf_b_sound S : cf_b S = true -> collision_free S.
+Proof.
+  unfold cf_b. intros H a b Ha Hb E.
+  rewrite forallb_forall in H. specialize (H a Ha). rewrite forallb_forall in H. specialize (H b Hb).
+  apply orb_prop in H. destruct H as [H|H]; [|apply tx_eqb_eq; auto].
+  apply negb_true_iff in H. apply N.eqb_neq in H. contradiction.
+Qed.
